@@ -64,7 +64,7 @@ func WriteEvidence(path, prop, tier string, seed, runs uint64, workers, distinct
 		"components": map[string][]string{
 			"real":       {"lexer", "parser (incl. formattext)", "emitter", "token", "ast"},
 			"stub":       {"script VM + loader", "game state", "simulated disk"},
-			"subprocess": {fmt.Sprintf("main.go (command-line front end: flag parsing, command-config loading, file I/O) - built as is and run for %d sampled compilations, output compared with the library call", st.CLIChecked)},
+			"subprocess": {fmt.Sprintf("main.go (command-line front end: flag parsing, command-config loading, file I/O) - built as is and run as a subprocess for %d sampled compilations: output file compared with the library call (co-simulation), or exit status / crash trace compared with the library's answer (fault campaign)", st.CLIChecked)},
 		},
 		"known_findings_seen": st.KnownSeen,
 		"selfcheck":           map[string]int64{"replayed": st.Replayed, "digest_mismatches": st.DigestMismatch, "plain_vs_instrumented": st.TranspChecked},
